@@ -43,7 +43,7 @@ C04_INVS = {"OneOwner", "OwnerMatchesListing", "OwnerAgrees", "DetExclusive", "K
             "ReleaseOwn", "CommandOwn",
             "ConflictFails", "HolderUnchanged", "NoCrash"}
 C06_INVS = {"OwnerListed", "PostListed", "PostOwned", "PostOwnedApi", "PostKilled", "PostOrphan", "PostDetectors", "DestroyHooksLast", "Returns",
-            "PendingCalls"}
+            "PendingCalls", "CleanupKillsUnowned"}
 
 
 # ---------------------------------------------------------------------------------------------------
@@ -504,6 +504,39 @@ def recipe_lost_append(sid, prefix="c"):
     return {"id": sid, "family": "recipe:lost-append", "agents": cs.DEFAULT_AGENTS, "files": files, "core": {}, "scripts": [],
             "hooks": {}, "steps": steps, "isolated": True, "classes": {c: "a"}, "hist": [{"do": "recipe", "name": "lost-append"}],
             "model": {"reuse": False, "strict": False, "family": "recipe", "kill": "ack", "envs": {"e1": mk, "e2": mk}}}
+
+
+def recipe_recheck(sid, prefix="c"):
+    """Two creations that need the same detector, both inside their detector re-check at the same time - if the code lets
+    them.  Both have taken their snapshot of the active detectors (parked at envman.create.snapshot); a third environment
+    (another detector) is destroyed and parked at env.setstate, where it holds its own data lock; the two creations are let
+    go and get stuck reading that environment's detectors inside the re-check (the second one only if the re-check is not
+    one critical section with the registration); then the destroy goes on.  No listing is asked for while they are stuck
+    (it would wait for the same locks).  Exactly one of the two creations may succeed."""
+    pre = "%s%d" % (prefix, sid)
+    c = pre + "a"
+    files = {"tasks/%s.yaml" % c: cs.task_class(c),
+             "workflows/%sw.yaml" % pre: cs.workflow(pre + "w", cs.role_task("a", c, host="h1"))}
+    tpc, its = {"detectors": "[\"TPC\"]"}, {"detectors": "[\"ITS\"]"}
+    snap, st = "envman.create.snapshot", "env.setstate"
+    steps = [{"do": "mutepoint", "point": "envman.released.delivered"},
+             {"do": "create", "env": "e3", "wf": pre + "w", "vars": its, "timeout_ms": 30000}, {"do": "settle", "ms": 40}, {"do": "snapshot"},
+             {"do": "gate", "point": snap},
+             {"do": "create", "env": "e1", "wf": pre + "w", "vars": tpc, "caller": "A", "timeout_ms": 40000},
+             {"do": "create", "env": "e2", "wf": pre + "w", "vars": tpc, "caller": "B", "timeout_ms": 40000},
+             {"do": "waitgate", "point": snap, "n": 2, "timeout_ms": 8000}, {"do": "disarm", "point": snap},
+             {"do": "gate", "point": st, "match": {"env": "e3"}},
+             {"do": "destroy", "env": "e3", "force": True, "caller": "C", "timeout_ms": 40000},
+             {"do": "waitgate", "point": st, "timeout_ms": 8000}, {"do": "disarm", "point": st},
+             {"do": "release", "point": snap}, {"do": "release", "point": snap}, {"do": "settle", "ms": 400},
+             {"do": "release", "point": st},
+             {"do": "await", "caller": "C", "timeout_ms": 40000}, {"do": "await", "caller": "A", "timeout_ms": 40000},
+             {"do": "await", "caller": "B", "timeout_ms": 40000}, {"do": "settle", "ms": 60}, {"do": "snapshot"}]
+    mk = lambda d: {"basic": ["a"], "hooks": [], "pend": False, "dets": d, "script": "ok"}
+    return {"id": sid, "family": "recipe:recheck", "agents": cs.DEFAULT_AGENTS, "files": files, "core": {}, "scripts": [],
+            "hooks": {}, "steps": steps, "isolated": True, "classes": {c: "a"}, "hist": [{"do": "recipe", "name": "recheck"}],
+            "model": {"reuse": False, "strict": False, "family": "recipe", "kill": "ack",
+                      "envs": {"e1": mk(["TPC"]), "e2": mk(["TPC"]), "e3": mk(["ITS"])}}}
 
 
 def run_expect_crash(ctx, s):
